@@ -364,7 +364,7 @@ func (x *Exec) assumeWellTyped(st *State, v Value) {
 		if isLiteral(v.Len.S) && isLiteral(v.Cap.S) {
 			return
 		}
-		st.assume(Term{fmt.Sprintf("(and (<= 0 %s) (<= 0 %s) (<= %s %s) (<= 0 %s) (=> (= %s 0) (= %s 0)))", v.Off.S, v.Len.S, v.Len.S, v.Cap.S, v.Arr.S, v.Arr.S, v.Cap.S), SBool})
+		st.assume(Term{fmt.Sprintf("(and (<= 0 %s) (<= 0 %s) (<= %s %s) (<= %s 9223372036854775807) (<= 0 %s) (=> (= %s 0) (= %s 0)))", v.Off.S, v.Len.S, v.Len.S, v.Cap.S, v.Cap.S, v.Arr.S, v.Arr.S, v.Cap.S), SBool})
 		st.assume(x.refBound(st, v.Arr))
 	case IfaceV:
 		if isLiteral(v.Tag.S) {
